@@ -162,6 +162,10 @@ where
         }
 
         let scale = AsPrimitive::<F>::as_(remaining_free_weight.as_()) / normalization;
+        if !scale.is_finite() {
+            // Can happen for extremely small (but still normal) `normalization`.
+            return Err(());
+        }
 
         Ok(Self {
             pmf: probabilities,
